@@ -30,7 +30,9 @@ RULE = ('cases: (1) sinusoids amp*sin(2 pi f t+phi), f = edge x {0.1,0.3,0.5,0.8
         'filter type x remove_gibbs x order 1..4, base dt in {0.001..0.02} times a time scale (nice and arbitrary) so that '
         'dt spans 1e-9..1e3 with the cut-offs scaled along, amp in {1e-12,0.01,1,250,1e12}, float64/float32 records in '
         'array/list/tuple/strided/reversed/read-only form, cut-offs as tuple/list/ndarray passed positionally, by keyword '
-        'or omitted (default), gibbs_extra 0/2, gibbs_range 1/7/200, record >= 60 periods of the lowest cut-off '
+        'or omitted (default), gibbs_extra 0/2, gibbs_range 1/7/200, odd and even lengths, 25 % with an awkward time step '
+        '(1/49, 0.03, gen.awkward_dt ...) and cut-offs given as fractions of the Nyquist frequency, 20 % with a constant '
+        'offset added (a frequency-0 sinusoid: expected times |H(0)|^2), record >= 60 periods of the lowest cut-off '
         '(non-trivial = |H|^2 >= 1e-4); pinned low-normalised-edge designs (dt=0.001,(0.5,10),order 4 ...); sequences '
         'of 2..4 calls on different sinusoids that reuse ONE cut-off container object (float64 ndarray, int ndarray, '
         'list, tuple), each call judged against the requested cut-offs, container compared bit-for-bit before/after '
@@ -45,9 +47,12 @@ RULE = ('cases: (1) sinusoids amp*sin(2 pi f t+phi), f = edge x {0.1,0.3,0.5,0.8
         '(4) add_constant/series/signal valid and mismatched, all dtype pairs with values over the full dtype range '
         '(sums leave the dtype), int constants that do not fit the dtype, own buffer / own object as argument, one '
         'argument object for two signals, positional and keyword. (5) running average widths 1..25 (int, numpy int, '
-        'integral float, default) on records of 1..200 samples INCLUDING records shorter than the window, all dtypes '
-        'and forms. (6) histories of 5..10 calls on one object (filters, detrends, adds, averages, resets to other '
-        'lengths, reads of cached quantities) each compared with the same call on a fresh object. (7) two records of one '
+        'integral float, default, and REAL widths recovered from a quotient such as (k*dt)/dt one ulp off an integer) on '
+        'records of 1..1025 samples (at / around powers of two) INCLUDING records shorter than the window, all dtypes '
+        'and forms, 35 % with a huge dynamic range inside the record (1e6..1e12 pulse/plateau/offset next to a 1e-6..1e-2 '
+        'coda, single outlier); all record workloads also draw monotone, one-sided, tail-heavy, alternating+offset, '
+        'single-changed-sample, zeros-inside, both-ends-extreme and single-step records. (6) histories of 5..10 calls on one object (filters, detrends, adds, averages, resets to other '
+        'lengths, reads of cached quantities, deepcopy) each compared with the same call on a fresh object. (7) two records of one '
         'shape back to back with the first result, a twin object and the caller arrays re-checked afterwards. '
         'distinct = digest of the complete parameter set of the case.')
 ASSUMPTIONS = ['finite real records; integer records of any width are in domain (the library must not compute in them)',
@@ -56,6 +61,9 @@ ASSUMPTIONS = ['finite real records; integer records of any width are in domain 
                'records longer than the filtfilt edge padding (3*(2N+1) samples band, 3*(N+1) low/high); shorter ones, '
                'object-dtype cut-off arrays holding None and the undocumented gibbs_range=0 are counted, not judged',
                'a float32 record may carry float32 rounding (1e-6 relative) through sums, means and the Gibbs pad value',
+               'running average: each output is judged relative to its own window (16 eps x window length x max|x| in '
+               'the window); detrending and filter relations relative to the global scale x conditioning',
+               'a real width w >= 1 means floor(w/2) positions on each side',
                'time-step mismatch is tested with steps that differ by >= 1 % (no knife edge)',
                'argument purity is not demanded when the caller passes the object itself / its own buffer to an add',
                'oracles vf/oracles/butter.py are correct']
@@ -194,15 +202,19 @@ def _post_butter(args, kwargs, result, pre):
 def _check_sine(ctx, p, pre, after, kwargs):
     """The filtered interior of a long sinusoid is the same sinusoid times |H(f)|^2, unshifted."""
     n = pre['npts']
-    amp = p['amp']
     g = O.butter_gain_sq(p['f'], p['dt'], p['order'], p['lo'], p['hi'])
+    # an added constant is a sinusoid of frequency 0: by linearity it comes out times |H(0)|^2 (1 low-pass, 0 otherwise)
+    off = float(p.get('offset') or 0.0)
+    g0 = O.butter_gain_sq(0.0, p['dt'], p['order'], p['lo'], p['hi']) if off else 0.0
+    amp = p['amp'] + abs(off)        # each component to GAIN_TOL of its own amplitude
     i0, i1 = n // 4, (3 * n) // 4
     x = pre['values']
     if len(after) != n:
         return   # the length clause has fired; nothing to compare against
-    ok, idx, err, allowed = tol.worst(after[i0:i1], g * x[i0:i1], scale=amp, rtol=GAIN_TOL)
-    desc = ('%s lo=%r hi=%r order=%d gibbs=%r dt=%g f=%g n=%d: expected |H|^2=%.6g'
-            % (_ftype(p['lo'], p['hi']), p['lo'], p['hi'], p['order'], p['gibbs'], p['dt'], p['f'], n, g))
+    ok, idx, err, allowed = tol.worst(after[i0:i1], g * (x[i0:i1] - off) + g0 * off, scale=amp, rtol=GAIN_TOL)
+    desc = ('%s lo=%r hi=%r order=%d gibbs=%r dt=%g f=%g n=%d offset=%g: expected |H|^2=%.6g'
+            % (_ftype(p['lo'], p['hi']), p['lo'], p['hi'], p['order'], p['gibbs'], p['dt'], p['f'], n, off, g))
+    after = after - g0 * off if off else after
     ctx.check(ok, 'butter.sine.interior==|H|^2*sine',
               lambda: _witness(fn='butter_pass', gain_expected=g, err=err, allowed=allowed,
                                at=(None if idx is None else int(idx[0]) + i0)),
@@ -212,8 +224,8 @@ def _check_sine(ctx, p, pre, after, kwargs):
         ctx.observe('butter.sine.fit-skipped')
         return
     a, b, res = fit
-    got_gain = math.hypot(a, b) / amp
-    ctx.check(abs(got_gain - g) <= GAIN_TOL, 'butter.sine.gain==|H|^2',
+    got_gain = math.hypot(a, b) / p['amp']
+    ctx.check(abs(math.hypot(a, b) - g * p['amp']) <= GAIN_TOL * amp, 'butter.sine.gain==|H|^2',
               lambda: _witness(fn='butter_pass', gain_expected=g, gain_got=got_gain),
               'amplitude ratio %.8g, expected squared Butterworth magnitude %.8g; %s' % (got_gain, g, desc))
     ctx.check(abs(b) <= GAIN_TOL * amp and a >= -GAIN_TOL * amp, 'butter.sine.zero-phase',
@@ -476,7 +488,8 @@ def _post_running_average(args, kwargs, result, pre):
     call = {'width': width}
     x = pre['values']
     try:
-        w_ok = float(width) == int(width) and 1 <= int(width)
+        # floor(w/2) is defined for every real width >= 1 (a width computed as t/dt need not be integral)
+        w_ok = math.isfinite(float(width)) and float(width) >= 1
     except Exception:
         w_ok = False
     if not w_ok or x.ndim != 1 or not _finite(x):
@@ -597,6 +610,8 @@ def _call_butter(sig, cut, p):
 def case_sine(eqsig, ctx, p):
     """One long sinusoid through butter_pass; the deciding clauses are evaluated by the monitor."""
     x = O.sinusoid(p['n'], p['dt'], p['f'], p['phi'], p['amp'])
+    if p.get('offset'):
+        x = x + float(p['offset'])
     if p.get('dtype') == 'float32':
         x = x.astype(np.float32)
     sig = _mk_sig(eqsig, p.get('cls', 'AccSignal'), _apply_form(x, p.get('form')), p['dt'])
@@ -949,7 +964,7 @@ def case_runavg(eqsig, ctx, p):
         w = p['width']
         if p.get('w_type') == 'np':
             w = np.int64(w)
-        elif p.get('w_type') == 'float':
+        elif p.get('w_type') in ('float', 'real'):
             w = float(w)
         if p.get('noarg') and int(p['width']) == 1:
             sig.running_average()
@@ -995,11 +1010,26 @@ def case_history(eqsig, ctx, p):
     and resets to other lengths. Every call is judged by the monitors against the values at call entry; in addition
     the same call on a fresh object built from a copy of those values must give the same record."""
     sig = _mk_sig(eqsig, p.get('cls', 'AccSignal'), np.asarray(p['x']), p['dt'])
-    for j, op in enumerate(p['ops']):
+    sources = []
+    for j, op in enumerate(p['ops'] + [{'op': 'end'}]):
+        if op['op'] == 'end':
+            _begin('history', p, call=j)
+            for src, v0, dt0, n0 in sources:
+                ctx.check(np.array_equal(np.asarray(src.values), v0) and src.dt == dt0 and src.npts == n0,
+                          'history.deepcopy-source-unchanged', lambda: _witness(op='deepcopy'),
+                          'calls on a deepcopy of a signal changed the signal it was copied from')
+            _end()
+            break
         _begin('history', p, call=j)
         try:
             if op['op'] in ('read', 'reset'):
                 _apply_op(eqsig, sig, op)
+                continue
+            if op['op'] == 'deepcopy':
+                # go on with a copy made by deepcopy of the warm object; the source must stay what it was
+                import copy
+                sources.append((sig, np.array(sig.values, copy=True), sig.dt, sig.npts))
+                sig = copy.deepcopy(sig)
                 continue
             twin = _mk_sig(eqsig, p.get('cls', 'AccSignal'), np.array(sig.values, copy=True), p['dt'])
             try:
@@ -1125,11 +1155,25 @@ def _pick_design(rng, ftype, nyq):
 
 def gen_sine(rng, ftype, gibbs, order, ctx=None):
     for _ in range(30):
-        dt = float(SINE_DT[int(rng.choice(len(SINE_DT), p=SINE_DT_P))])
-        nyq = 0.5 / dt
-        lo, hi = _pick_design(rng, ftype, nyq)
+        awkward = rng.random() < 0.25
+        if awkward:
+            # time steps whose reciprocal is not an integer / not exact (1/49, 0.03, gen.awkward_dt) and cut-offs given as
+            # fractions of the Nyquist frequency: any int()/round() of 1/dt or of cut_off/nyq shifts the corner
+            r = rng.random()
+            dt = 1.0 / gen.RECIP_K[int(rng.integers(len(gen.RECIP_K)))] if r < 0.3 else \
+                (float(rng.choice([0.03, 0.007, 0.006, 0.0125, 0.07, 0.011])) if r < 0.6
+                 else min(gen.awkward_dt(rng, int(rng.integers(2, 13))), 0.2))
+            nyq = 0.5 / dt
+            flo = float(rng.choice([0.01, 0.02, 0.05, 0.1, 0.125]))
+            fhi = float(rng.choice([0.25, 0.4, 0.5, 0.75]))
+            lo, hi = {'band': (flo * nyq, fhi * nyq), 'low': (None, fhi * nyq), 'high': (flo * nyq, None)}[ftype]
+        else:
+            dt = float(SINE_DT[int(rng.choice(len(SINE_DT), p=SINE_DT_P))])
+            nyq = 0.5 / dt
+            lo, hi = _pick_design(rng, ftype, nyq)
         f_low = lo if lo is not None else hi
         n = max(1024, int(math.ceil(60.0 / (f_low * dt))))
+        n += int(rng.integers(0, 2))       # odd and even lengths (centred Gibbs padding: int(diff_len / 2))
         if n > MAX_SINE_N:
             if ctx is not None:
                 ctx.observe('sine.design-skipped-needs->400000-samples')
@@ -1147,13 +1191,17 @@ def gen_sine(rng, ftype, gibbs, order, ctx=None):
             container = ['tuple', 'list'][int(rng.integers(2))]
         # the filter only sees f*dt: the same design at time steps from 1e-9 to 1e3
         ts = float(rng.choice([1.0, 1.0, 1e-6, 5e4])) if rng.random() < 0.6 else float(10.0 ** rng.uniform(-6, 4.7))
+        if awkward:
+            ts = 1.0
         dt, f = dt * ts, f / ts
         lo = None if lo is None else lo / ts
         hi = None if hi is None else hi / ts
         g_extra = int(rng.choice([0, 2])) if (gibbs is not None and n <= 50000 and rng.random() < 0.15) else None
         g_range = int(rng.choice([1, 7, 200])) if (gibbs is not None and rng.random() < 0.15) else None
+        amp = float(rng.choice([1.0, 1.0, 0.01, 250.0, 1e-12, 1e12]))
         return {'n': n, 'dt': dt, 'f': float(f), 'phi': float(rng.uniform(0, 2 * math.pi)),
-                'amp': float(rng.choice([1.0, 1.0, 0.01, 250.0, 1e-12, 1e12])), 'lo': lo, 'hi': hi, 'order': int(order),
+                'amp': amp, 'offset': (amp * float(rng.choice([-100.0, -3.0, 0.5, 3.0, 100.0])) if rng.random() < 0.2
+                                       else None), 'awkward_dt': bool(awkward), 'lo': lo, 'hi': hi, 'order': int(order),
                 'pass_order': bool(rng.random() < 0.5), 'gibbs': gibbs, 'gibbs_extra': g_extra, 'gibbs_range': g_range,
                 'container': container, 'cut_kw': bool(rng.random() < 0.3),
                 'dtype': 'float32' if rng.random() < 0.15 else 'float64',
@@ -1220,7 +1268,7 @@ def pinned_sines():
 
 
 LIN_N = [30, 40, 63, 64, 65, 100, 127, 128, 129, 333, 1000, 1023, 1024, 1025, 2048, 4095, 4096, 4097, 4684, 5000]
-LONG_N = [65535, 65537, 70001, 131073]          # past 2**16: a few per quick run
+LONG_N = [65535, 65536, 65537, 70001, 131073]          # past 2**16: a few per quick run
 DYNRANGE_SHARE = [0.12]     # share of float64 records with a huge dynamic range inside the record
 DTYPES = ['float64', 'float32', 'int64', 'int32', 'int16', 'int8', 'uint8', 'uint16']
 
@@ -1294,6 +1342,44 @@ def dynrange_record(rng, n):
     return x, 'dynrange-%s-then-%s' % (wname, sname)
 
 
+SHAPES = ['monotone', 'one-sided-negative', 'tail-heavy', 'alternating+offset', 'single-changed-sample', 'zeros-inside',
+          'both-ends-extreme', 'single-step']
+
+
+def shape_record(rng, n, shape=None):
+    """Records the statement does not forbid (checklist 11)."""
+    shape = shape or SHAPES[int(rng.integers(len(SHAPES)))]
+    a = float(10.0 ** rng.uniform(-2, 2))
+    if shape == 'monotone':
+        x = np.cumsum(np.abs(rng.normal(size=n))) * a * float(rng.choice([-1, 1])) + a * rng.normal()
+    elif shape == 'one-sided-negative':
+        x = -(np.abs(rng.normal(size=n)) + rng.uniform(0, 2)) * a
+    elif shape == 'tail-heavy':
+        x = np.zeros(n)
+        m = max(1, n // int(rng.integers(3, 9)))
+        x[-m:] = rng.normal(size=m) * a
+        if rng.random() < 0.5:
+            x[:-m] = rng.normal(size=n - m) * a * 1e-4
+    elif shape == 'alternating+offset':
+        x = a * (-1.0) ** np.arange(n) + a * float(rng.choice([0.0, 0.5, -3.0]))
+    elif shape == 'single-changed-sample':
+        x = np.full(n, a * float(rng.choice([-1.0, 0.0, 2.5])))
+        x[int(rng.integers(n))] += a * float(rng.choice([-1, 1])) * rng.uniform(0.1, 10)
+    elif shape == 'zeros-inside':
+        x = rng.normal(size=n) * a
+        for _ in range(int(rng.integers(1, 4))):
+            i = int(rng.integers(n))
+            x[i:i + int(rng.integers(1, max(2, n // 6)))] = 0.0
+    elif shape == 'both-ends-extreme':
+        x = rng.normal(size=n) * a
+        x[0] = 6 * a * float(rng.choice([-1, 1]))
+        x[-1] = 7 * a * float(rng.choice([-1, 1]))
+    else:
+        x = np.zeros(n)
+        x[int(rng.integers(n)):] = a * float(rng.choice([-1, 1]))
+    return x, 'shape-' + shape
+
+
 def typed_record(rng, n, dtype, frac=1.0, dyadic=False):
     """A record of the given dtype. Integers use the fraction frac of the dtype's range (all of it by default, so that
     sums / differences of neighbours leave the dtype); float32 optionally dyadic so that x+y is exact."""
@@ -1321,6 +1407,8 @@ def typed_record(rng, n, dtype, frac=1.0, dyadic=False):
         return x, 'float32-%s%s' % (cls, tag)
     if rng.random() < DYNRANGE_SHARE[0]:
         return dynrange_record(rng, n)
+    if rng.random() < 0.2:
+        return shape_record(rng, n)
     x, cls = gen.record(rng, n, allow_const=False)
     r = rng.random()
     tag = ''
@@ -1421,7 +1509,8 @@ def gen_container(rng, ftype):
     return q
 
 
-DETREND_N = [8, 9, 10, 13, 16, 33, 64, 100, 200, 500, 1000, 1999, 2000]
+DETREND_N = [8, 9, 10, 13, 16, 31, 32, 33, 63, 64, 65, 100, 127, 128, 129, 200, 255, 256, 257, 500, 1000, 1023, 1024, 1025,
+             1999, 2000]
 
 
 def gen_detrend(rng, k):
@@ -1444,9 +1533,12 @@ def gen_detrend(rng, k):
             x[-1] = np.float32(np.mean(x) + float(rng.choice([-1, 1])) * rng.uniform(5, 50) * max(float(np.std(x)), 1e-3))
             spike = '+endspike'
     else:
-        cls = ['noise', 'walk', 'quake', 'sine', 'intnoise', 'plateau', 'step', 'ramp', 'dynrange'][int(rng.integers(9))]
+        cls = ['noise', 'walk', 'quake', 'sine', 'intnoise', 'plateau', 'step', 'ramp', 'dynrange', 'shape', 'shape'][
+            int(rng.integers(11))]
         if cls == 'dynrange':
             x, cls = dynrange_record(rng, n)
+        elif cls == 'shape':
+            x, cls = shape_record(rng, n)
         elif cls == 'ramp':
             t = np.arange(n) / max(n - 1.0, 1.0)
             x = rng.normal(size=n) * 0.05 + float(rng.choice([-1, 1])) * t ** int(rng.integers(1, 6)) * rng.uniform(1, 5)
@@ -1488,7 +1580,7 @@ ADD_VARIANTS = ['constant', 'series', 'series-bad', 'signal', 'signal-badlen', '
 
 
 def gen_add(rng, i):
-    n = int(rng.choice([1, 2, 3, 8, 50, 200, 1000]))
+    n = int(rng.choice([1, 2, 3, 8, 31, 32, 33, 50, 64, 65, 127, 128, 129, 200, 256, 257, 1000]))
     x, cls = typed_record(rng, n, _pick_dtype(rng, 0.4))
     dt = float(_wide_dt(rng))
     p = {'x': x, 'dt': dt, 'cls': 'AccSignal' if rng.random() < 0.5 else 'Signal', 'kw': bool(rng.random() < 0.3),
@@ -1545,16 +1637,26 @@ def gen_add(rng, i):
 
 
 def gen_runavg(rng, i):
-    n = int(rng.choice([1, 2, 3, 4, 5, 7, 10, 24, 25, 26, 50, 100, 200]))     # includes records shorter than the window
+    # includes records shorter than the window and lengths at / around powers of two (block-wise implementations)
+    n = int(rng.choice([1, 2, 3, 4, 5, 7, 10, 24, 25, 26, 31, 32, 33, 50, 63, 64, 65, 100, 127, 128, 129, 200, 255, 256,
+                        257, 512, 1025]))
     w = int(rng.integers(1, 26))
     if rng.random() < 0.1:
         w = 1
+    w_type = ['int', 'int', 'int', 'np', 'float', 'real'][int(rng.integers(6))]
+    if w_type == 'real':
+        # a width recovered from a duration: (k*dt)/dt or dt/(dt/k) for a step where the quotient is not exactly k
+        k = int(rng.integers(2, 26))
+        d = gen.awkward_dt(rng, k)
+        w = float(d / (d / k)) if rng.random() < 0.5 else float((k * d) / d)
+        if w < 1 or rng.random() < 0.25:
+            w = float(k) * (1 - 2.0 ** -52) if rng.random() < 0.5 else float(np.nextafter(k, 30))
     if rng.random() < 0.35:
         x, cls = dynrange_record(rng, n)
     else:
         x, cls = typed_record(rng, n, _pick_dtype(rng, 0.45))
     return {'x': x, 'dt': float(_wide_dt(rng)), 'width': w,
-            'w_type': ['int', 'int', 'int', 'np', 'float'][int(rng.integers(5))], 'kw': bool(rng.random() < 0.3),
+            'w_type': w_type, 'kw': bool(rng.random() < 0.3),
             'noarg': bool(w == 1 and rng.random() < 0.5),
             'form': FORMS[int(rng.integers(len(FORMS)))] if rng.random() < 0.5 else 'array',
             'cls': 'AccSignal' if rng.random() < 0.5 else 'Signal', 'record_class': cls}
@@ -1592,7 +1694,10 @@ def gen_history(rng):
     ops = []
     for _ in range(int(rng.integers(5, 11))):
         kind = ['butter', 'poly', 'const', 'series', 'signal', 'runavg', 'reset', 'read', 'butter', 'poly', 'runavg',
-                'read'][int(rng.integers(12))]
+                'read', 'deepcopy'][int(rng.integers(13))]
+        if kind == 'deepcopy':
+            ops.append({'op': 'deepcopy'})
+            continue
         if kind == 'reset':
             m = int(rng.choice([n, n // 2 + 20, 2 * n, 41]))
             ops.append({'op': 'reset', 'values': gen.record(rng, m, allow_const=False)[0]})
@@ -1739,7 +1844,9 @@ def run_shard(ctx):
         p = gen_runavg(rng, c)
         xx = np.asarray(p['x'], dtype=float)
         ctx.case(_dig('runavg', p), nontrivial=bool(p['width'] >= 2 and len(xx) >= 2 and np.ptp(xx) > 0),
-                 cls='runavg-%s%s' % (p['x'].dtype.name, '-shorter-than-window' if len(xx) < p['width'] else ''),
+                 cls='runavg-%s%s%s%s' % (p['x'].dtype.name, '-shorter-than-window' if len(xx) < p['width'] else '',
+                                          '-even-width' if int(p['width']) % 2 == 0 else '',
+                                          '-real-width' if p['w_type'] == 'real' else ''),
                  sample={'n': len(xx), 'width': p['width'], 'dtype': p['x'].dtype.name, 'form': p['form']})
         case_runavg(eqsig, ctx, p)
 
@@ -1827,6 +1934,7 @@ def _min_evals():
         m['runavg==mean-of-original-window'] = run // 2
         m['runavg.length+dt-preserved'] = run // 2
         m['history.call==same-call-on-fresh-object'] = cnt['history'] * nsh * 2
+        m['history.deepcopy-source-unchanged'] = cnt['history'] * nsh // 5
         for o in STATE_OPS:
             m['state.first-result-unchanged-after-second-call.%s' % o] = st // (2 * len(STATE_OPS))
         m['state.twin-object-unchanged'] = st // 2
